@@ -14,7 +14,7 @@ RULE = ('per-field exhaustive sweeps (every value of one field, the other fields
         'inconsistent calls.  Oracle: Python big-int shifts of the documented layout.  '
         'Non-trivial = at least one field in the upper half of its range (sweeps: chunk contains such '
         'values); distinct = distinct case hash.')
-ASSUMPTIONS = ['arrays are int64 (uint64 for specObjID input to unwrap), as the docstrings require',
+ASSUMPTIONS = ['objID arrays are int64 as the docstring requires; specObjID field arrays are int64 and also int32/uint32/uint64 (FITS columns are 32-bit; every field value fits); unwrap gets uint64 or strings',
                'run2d strings are exactly vN_M_P with 5<=N<=6, 0<=M,P<=99 (documented form)',
                'scalar convention = every argument a Python int; array convention = every argument an array']
 
@@ -198,8 +198,10 @@ def obj_classify(case):
 
 def spec_strategy():
     row = tuple_strategy(SPEC_FIELDS)
+    # every field of a specObjID fits in 15 bits except MJD (< 66384): int32/uint32/uint16-safe values only where they fit
     return st.fixed_dictionaries(dict(rows=st.lists(row, min_size=1, max_size=5),
-                                      low=st.sampled_from(['line', 'index', 'none'])))
+                                      low=st.sampled_from(['line', 'index', 'none']),
+                                      dtype=st.sampled_from(['i4', 'u4', 'i8', 'u8'])))
 
 
 def spec_body(case):
@@ -227,11 +229,13 @@ def spec_body(case):
             check(int(g[0]) == spec_oracle(r), 'specobjid-layout-run2d-intstring', lambda: dict(row=r, got=int(g[0])))
     check(scal == exp, 'specobjid-layout-scalar', lambda: dict(rows=rows, got=scal, want=exp))
     check(scal_s == exp, 'specobjid-layout-run2d-string', lambda: dict(rows=rows, got=scal_s, want=exp))
-    arr = {n: np.array([r[n] for r in rows], dtype=np.int64) for n, lo, hi, sh in SPEC_FIELDS}
-    g = call(sdss_specobjid, arr['plate'], arr['fiber'], arr['mjd'], arr['run2d'], **kw(arr['line']))
-    with judge('specobjid-array'):
-        check([int(x) for x in g] == exp, 'specobjid-scalar-vs-array',
-              lambda: dict(rows=rows, got=[int(x) for x in g], want=exp))
+    for dt in (np.int64, np.dtype(case.get('dtype', 'i8'))):
+        arr = {n: np.array([r[n] for r in rows], dtype=dt) for n, lo, hi, sh in SPEC_FIELDS}
+        g = call(sdss_specobjid, arr['plate'], arr['fiber'], arr['mjd'], arr['run2d'], **kw(arr['line']))
+        with judge('specobjid-array'):
+            check(np.asarray(g).dtype == np.uint64, 'specobjid-array-dtype', lambda: dict(got=str(np.asarray(g).dtype)))
+            check([int(x) for x in g] == exp, 'specobjid-scalar-vs-array',
+                  lambda: dict(rows=rows, got=[int(x) for x in g], want=exp, dtype=str(np.dtype(dt))))
     for label, ids in (('uint64', np.array(exp, dtype=np.uint64)), ('str', np.array([str(e) for e in exp]))):
         for as_int in (True, False):
             un = call(unwrap_specobjid, ids, run2d_integer=as_int, specLineIndex=(low == 'index'))
@@ -252,7 +256,7 @@ def spec_body(case):
 
 
 def spec_classify(case):
-    out = ['rows:%d' % min(len(case['rows']), 3), 'low:' + case['low']]
+    out = ['rows:%d' % min(len(case['rows']), 3), 'low:' + case['low'], 'dtype:' + case.get('dtype', 'i8')]
     for r in case['rows']:
         for n, lo, hi, sh in SPEC_FIELDS:
             if r[n] == hi:
